@@ -482,6 +482,31 @@ func groupNoCopy() {
 	t.add("W", binary(), 3, "default", "nocopy")
 }
 
+// one writer with many small fields of few distinct wire sizes (4, 5, 7, 11 bytes and short strings)
+// and readers with holders that know different subsets: known and unknown fields interleave in many
+// runs whose lengths coincide in many ways (C11: holder bookkeeping by offset and size)
+func groupEvoMix() {
+	kinds := []*Ty{prim("bool"), prim("int32"), prim("int64"), prim("int8"), prim("int16"), prim("float64"),
+		prim("string"), prim("int32"), prim("bool"), prim("int64"), prim("int16"), prim("int32"), prim("int8"), prim("float64")}
+	w := newStruct("evomixw")
+	for i, t := range kinds {
+		w.add(fmt.Sprintf("F%d", i+1), t, i+1, "default")
+	}
+	for k := 0; k < 8; k++ {
+		r := newStruct("evomix")
+		r.Writer = w.Sid
+		for i, t := range kinds {
+			if (rng.Intn(2) == 0) {
+				r.add(fmt.Sprintf("F%d", i+1), t, i+1, "default")
+			}
+		}
+		if len(r.Fields) == 0 {
+			r.add("F2", kinds[1], 2, "default")
+		}
+		r.addHolder()
+	}
+}
+
 // optional-pointer forms of string and binary, copied and nocopy (C14: "in both its plain and
 // optional-pointer forms"; a `*[]byte` must come back as a well-formed slice: D12)
 func groupPtrBinary() {
@@ -1171,6 +1196,7 @@ func main() {
 	groupByValue()
 	groupNoCopy()
 	groupPtrBinary()
+	groupEvoMix()
 	groupEvolution()
 	groupSpellings()
 	groupInvalid()
